@@ -93,23 +93,25 @@ def coq_make():
     return rc == 0, o + e
 
 
-def proof_status(pid):
-    """Compile Properties_<pid>.v afresh and read what Print Assumptions says for each theorem."""
-    f = COQ + '/Properties_%s.v' % pid
-    res = {'file': f, 'theorems': [], 'ok': False, 'axioms': [], 'log': ''}
-    if not os.path.exists(f):
-        res['log'] = 'no property file'
-        return res
+def property_files(pid):
+    """Properties_<pid>.v plus optional companion files Properties_<pid>_<tag>.v (e.g. _src: theorems over
+    definitions the translator regenerates from the source)."""
+    import glob as _glob
+    main = COQ + '/Properties_%s.v' % pid
+    return [main] + sorted(_glob.glob(COQ + '/Properties_%s_*.v' % pid))
+
+
+def _proof_status_file(f, res):
     src = open(f).read()
     thms = re.findall(r'^\s*Theorem\s+(\w+)', src, re.M)
-    res['theorems'] = thms
+    res['theorems'] += thms
+    base = os.path.basename(f)[:-2]
     tmpd = tempfile.mkdtemp(prefix='vprop_')
     try:
-        rc, o, e = sh('timeout 1200 coqc -Q %s Icv -o %s/Properties_%s.vo %s' % (COQ, tmpd, pid, f), cwd=COQ, timeout=1300)
+        rc, o, e = sh('timeout 1200 coqc -Q %s Icv -o %s/%s.vo %s' % (COQ, tmpd, base, f), cwd=COQ, timeout=1300)
     finally:
         shutil.rmtree(tmpd, ignore_errors=True)
-    res['log'] = (o + e)[-4000:]
-    res['checker_cmd'] = 'make -k -j%d (coq_makefile, Coq 8.16.1) && coqc -Q %s Icv %s' % (NPROC, COQ, f)
+    res['log'] = (res['log'] + (o + e))[-4000:]
     if rc != 0:
         m = re.search(r'File "[^"]*", line (\d+)', o + e)
         res['failed_at'] = m.group(0) if m else 'unknown'
@@ -124,28 +126,47 @@ def proof_status(pid):
                 if i >= ln:
                     break
             res['failed_theorem'] = cur
-        return res
+        return False, 0, set()
     # parse "Closed under the global context" / "Axioms:" blocks, one per Print Assumptions
     blocks = re.split(r'(?=Closed under the global context|Axioms:)', o)
-    n_closed = 0
     axioms = set()
     for b in blocks:
-        if b.startswith('Closed under'):
-            n_closed += 1
-        elif b.startswith('Axioms:'):
+        if b.startswith('Axioms:'):
             for m in re.finditer(r'^([\w\.]+)\s*:', b[7:], re.M):
                 axioms.add(m.group(1))
-    res['n_print_assumptions'] = len([b for b in blocks if b.startswith('Closed') or b.startswith('Axioms:')])
+    npa = len([b for b in blocks if b.startswith('Closed') or b.startswith('Axioms:')])
+    return (npa >= len(thms)), npa, axioms
+
+
+def proof_status(pid):
+    """Compile Properties_<pid>.v (and its companion files) afresh and read what Print Assumptions says for each theorem."""
+    files = property_files(pid)
+    f = files[0]
+    res = {'file': f, 'files': files, 'theorems': [], 'ok': False, 'axioms': [], 'log': ''}
+    if not os.path.exists(f):
+        res['log'] = 'no property file'
+        return res
+    res['checker_cmd'] = 'make -k -j%d (coq_makefile, Coq 8.16.1) && ' % NPROC + ' && '.join('coqc -Q %s Icv %s' % (COQ, x) for x in files)
+    all_ok, n_pa, axioms = True, 0, set()
+    for x in files:
+        ok, npa, ax = _proof_status_file(x, res)
+        if 'failed_at' in res:
+            return res
+        all_ok = all_ok and ok
+        n_pa += npa
+        axioms |= ax
+    res['n_print_assumptions'] = n_pa
     res['axioms'] = sorted(axioms)
     bad = [a for a in axioms if a.split('.')[-1] not in {s.split('.')[-1] for s in STD_AXIOMS}]
     res['bad_axioms'] = bad
-    res['ok'] = (not bad) and res['n_print_assumptions'] >= len(thms) and len(thms) > 0
+    res['ok'] = (not bad) and all_ok and len(res['theorems']) > 0
     return res
 
 
 def coqchk(pid):
     """thorough tier: re-check the compiled property file and everything it depends on with the independent checker."""
-    cmd = 'coqchk -o -silent -Q %s Icv Icv.Properties_%s' % (COQ, pid)
+    mods = ' '.join('Icv.' + os.path.basename(x)[:-2] for x in property_files(pid))
+    cmd = 'coqchk -o -silent -Q %s Icv %s' % (COQ, mods)
     try:
         rc, o, e = sh('timeout 1500 ' + cmd, cwd=COQ, timeout=1600)
     except subprocess.TimeoutExpired:
